@@ -26,6 +26,11 @@ def random_cell(rng, kind, scale=12.0):
     if kind == "tri":   # LAMMPS orientation, any tilt signs
         xy, xz, yz = rng.uniform(-0.45, 0.45, 3) * np.array([a, a, b])
         return np.array([[a, 0, 0], [xy, b, 0], [xz, yz, c]])
+    if kind == "tiny_tilt":    # almost orthorhombic, LAMMPS orientation: tilt factors between the printed precision (1e-6) and 1e-3
+        cell = np.diag([a, b, c])
+        for (i, j) in ((1, 0), (2, 0), (2, 1)):
+            cell[i, j] = float(rng.choice([-1, 1])) * 10 ** rng.uniform(-5.3, -3.1)
+        return cell
     if kind == "rotated_ortho":     # an orthorhombic box described in a rotated frame: all angles 90 degrees, vectors not along x, y, z
         from vmon.oracle.geometry import random_rotation
         return np.diag([a, b, c]).dot(random_rotation(rng).T)
